@@ -4,10 +4,10 @@ CONSTANTS MaxNode = 3
           MaxReq = 2
           MaxSess = 1
           D = 3
-          Places <- PlacesTwo
-          SessChoices = {0}
+          Places <- PlacesSmall
+          SessChoices = {0, 1}
           ReqChoices <- ReqSmall
-          AddNodes = {2}
+          AddNodes = {1, 2}
           MaxAdds = 1
           MaxReqs = 2
           BigBlocks = {2}
